@@ -29,6 +29,9 @@ func init() {
 			{ID: "C01.R8", Floor: 5, Run: c02r6, Text: "growth copies whole slices (= C02.R6)"},
 			{ID: "C01.R10", Floor: 3, Run: divModPairs, Text: "two-level addressing tiles the index space: where one value is divided by a constant and reduced modulo a constant in the same function (idMap chunk/slot, bitSet and Mask word/bit, paged slices), the two constants are equal (mask = 2^k-1 for the shift/mask spelling)"},
 			{ID: "C01.R11", Floor: 1, Run: setReturnsStorage, Text: "archetype methods that write a component and return an unsafe.Pointer return the pointer into column storage (derived from Get / layout.pointer), never the caller's source pointer"},
+			{ID: "C01.R12", Floor: 3, Run: columnEffectsComplete, Text: "per-column effects are not skipped: in every loop of an archetype method whose body zeroes or copies column storage, each iteration performs the effect unless the column is known zero-sized (`itemSize == 0`); no other reason to skip a column"},
+			{ID: "C01.R13", Floor: 2, Run: idsNotFabricated, Text: "component ids in per-column loops come from the table's id list (or a parameter), never from a position in the buffer list"},
+			{ID: "C01.R14", Floor: 1, Run: layoutCountFromCount, Text: "the layout count covers every registered id (= C16.R12)"},
 		},
 	})
 }
